@@ -181,6 +181,101 @@ func c11GenCounter(r *rand.Rand, emit func(...string)) {
 	emit(in...)
 }
 
+// large validator sets: more members than a machine word has bits (32, 64, 128 ...), with
+// repeated counts at every index class.  sweep = count every index twice, in order.
+func c11GenCounterLarge(r *rand.Rand, n int, sweep bool, emit func(...string)) {
+	in := []string{"K"}
+	ids := make([]uint64, n)
+	mode := r.Intn(3)
+	perm := r.Perm(n)
+	for i := 0; i < n; i++ {
+		var w uint64
+		switch mode {
+		case 0: // equal weights: sorted index = rank of the id
+			w = 1
+		case 1:
+			w = 1 + uint64(r.Intn(5))
+		default: // total close to 2^31-1, sums above 2^16 and 2^24
+			w = uint64(0x7FFFFFFF)/uint64(n) - uint64(r.Intn(2))
+		}
+		ids[i] = uint64(1000 + 7*perm[i])
+		in = append(in, vu.U64(ids[i]), vu.U64(w))
+	}
+	op := func(t ...string) { in = append(append(in, ";"), t...) }
+	if sweep {
+		for i := 0; i < n; i++ {
+			op("I", strconv.Itoa(i))
+			op("I", strconv.Itoa(i))
+			if i%16 == 15 {
+				op("S")
+				op("H")
+			}
+		}
+		op("S")
+		op("H")
+		emit(in...)
+		return
+	}
+	// index classes 0..31, 32..63, 64..127, 128.. : pick members of each, count them repeatedly
+	classes := [][2]int{{0, 32}, {32, 64}, {64, 128}, {128, 256}, {256, 1 << 20}}
+	for _, c := range classes {
+		if c[0] >= n {
+			break
+		}
+		hi := c[1]
+		if hi > n {
+			hi = n
+		}
+		for k := 0; k < 3; k++ {
+			i := c[0] + r.Intn(hi-c[0])
+			switch r.Intn(3) {
+			case 0:
+				op("I", strconv.Itoa(i))
+				op("I", strconv.Itoa(i))
+			case 1:
+				id := ids[r.Intn(n)]
+				op("C", vu.U64(id))
+				op("C", vu.U64(id))
+			default:
+				op("I", strconv.Itoa(i))
+				op("S")
+				op("I", strconv.Itoa(i))
+			}
+			op("S")
+			if r.Intn(2) == 0 {
+				op("H")
+			}
+		}
+	}
+	// then a random tail with many repeats, until a quorum is likely
+	for j, m := 0, n+r.Intn(n); j < m; j++ {
+		switch r.Intn(6) {
+		case 0:
+			op("S")
+		case 1:
+			op("H")
+		case 2:
+			op("C", vu.U64(ids[r.Intn(n)]))
+		default:
+			op("I", strconv.Itoa(r.Intn(n)))
+		}
+	}
+	op("S")
+	op("H")
+	if r.Intn(4) == 0 {
+		op("I", strconv.Itoa(n)) // first index out of range
+	}
+	emit(in...)
+}
+
+func c11LargeSizes(tier string) []int {
+	sizes := []int{31, 32, 33, 63, 64, 65, 96, 127, 128, 129, 200}
+	if tier == "thorough" {
+		sizes = append(sizes, 255, 256, 257, 400, 1000)
+	}
+	return sizes
+}
+
 func init() {
 	vu.Register("C11", &vu.Prop{
 		Gen: func(r *rand.Rand, n int, tier string, emit func(...string)) {
@@ -245,6 +340,31 @@ func init() {
 			for i := 0; i < n; i++ {
 				c11GenCounter(r, emit)
 			}
+			// sets larger than 32 / 64 / 128 members, around powers of two
+			sizes := c11LargeSizes(tier)
+			for _, sz := range sizes {
+				if sz <= 257 { // the set-based specification is quadratic in the number of counts
+					c11GenCounterLarge(r, sz, true, emit)
+				}
+				c11GenCounterLarge(r, sz, false, emit)
+			}
+			nl := n/16 + 4
+			if nl > 400 {
+				nl = 400
+			}
+			for i := 0; i < nl; i++ {
+				c11GenCounterLarge(r, 33+r.Intn(168), false, emit)
+			}
+			// many validators through Build: Q cases with 33..300 members
+			for i := 0; i < n/40+3; i++ {
+				m := 33 + r.Intn(268)
+				in := []string{"Q"}
+				for j := 0; j < m; j++ {
+					in = append(in, vu.U64(uint64(5000+j)), vu.U64(uint64(0x7FFFFFFF)/uint64(m)+uint64(r.Intn(3))-1))
+				}
+				emit(in...)
+			}
+			emit("K", ";", "H", ";", "S", ";", "I", "0") // the empty set
 		},
 		Run: func(in []string) []string {
 			switch in[0] {
@@ -267,6 +387,14 @@ func init() {
 					return []string{"PANIC"}
 				}
 				c := vs.NewCounter()
+				switch l := int(vs.Len()); {
+				case l > 128:
+					vu.Stat("k_set_over_128")
+				case l > 64:
+					vu.Stat("k_set_65_to_128")
+				case l > 32:
+					vu.Stat("k_set_33_to_64")
+				}
 				out := []string{"OK"}
 				for _, op := range g[1:] {
 					res, ok := c11Call(c, op)
@@ -281,6 +409,13 @@ func init() {
 					}
 					if (op[0] == "I" || op[0] == "C") && res == "0" {
 						vu.Stat("k_repeat_count")
+						if op[0] == "I" {
+							if i, _ := strconv.Atoi(op[1]); i >= 64 {
+								vu.Stat("k_repeat_count_idx_ge_64")
+							} else if i >= 32 {
+								vu.Stat("k_repeat_count_idx_32_63")
+							}
+						}
 					}
 				}
 				return out
